@@ -88,8 +88,11 @@ def drive(rec, part, ms, quick):
                 continue
             emit("from_znx64", fn, m, [to_words(int(v), 4) for v in xs], [to_words(int(v), 4) for v in R.i64], {}, mask)
         # ---------------- to_znx64
-        for (bound, dl) in [(40, 0), (50, 3), (55, -2), (63, 7), (63, 0)] if not quick else [(50, rng.choice([0, 3, -2])), (63, rng.choice([0, 7]))]:
-            lim = 50 if bound <= 50 else 52
+        # bounds on both sides of the kernel threshold (50) and next to it; consecutive cases share m and often the divisor, so that the
+        # thread-local table of the _simple form is re-keyed on the bound alone and on the divisor alone
+        for (bound, dl) in [(40, 0), (50, 3), (51, 3), (52, 3), (53, -2), (55, -2), (63, 7), (63, 0), (50, 0)] if not quick else \
+                [(50, 3), (51, 3), (52, rng.choice([0, 3, -2])), (63, rng.choice([0, 7])), (63, 3)]:
+            lim = min(bound, 52)
             ys = fill(y_values("to_znx64", lim, rng, max(n, 40)), n, rng)
             d = 2.0 ** dl
             xs = [y * d for y in ys]
@@ -138,7 +141,7 @@ def drive(rec, part, ms, quick):
                 order = [(i // 2) + (m if i % 2 else 0) for i in range(n)]
                 emit(conv, fn, m, [to_words(int(xs[order[i]]), 2) for i in range(n)], [to_words(int(v), 4) for v in R.i64], {}, mask)
         # ---------------- complex -> torus32  (|x/d| < 2^18)
-        for (dl, ovh) in ([(0, 18), (20, 10), (-3, 30)] if not quick else [(rng.choice([0, 20, -3]), rng.choice([0, 18])), (5, 30)]):
+        for (dl, ovh) in ([(0, 18), (20, 18), (20, 10), (-3, 10), (-3, 30)] if not quick else [(rng.choice([0, 20]), 18), (-3, 18), (-3, rng.choice([0, 10])), (5, 30)]):
             ys = fill(y_values("to_tnx32", min(18, max(ovh, 1)) if ovh <= 18 else 18, rng, max(n, 40)), n, rng)
             d = 2.0 ** dl
             xs = [y * d for y in ys]
